@@ -34,6 +34,8 @@ def port_graph(rng, depth):
     for _ in range(n_in):
         nm = names.pop()
         sh = [rng.randint(1, 6) for _ in range(rng.choice([1, 1, 2]))]
+        if rng.random() < 0.12:      # large axes: a wrong Output shape is then off by a tiny RELATIVE amount
+            sh[-1] = rng.choice([100000, 200000, 480000, 1 << 20])
         nodes[nm] = {"k": "Input", "args": {"input_type": np.array(sh, dtype=np.int64)}}
         shapes.append((nm, sh))
     mids = []
@@ -51,7 +53,10 @@ def port_graph(rng, depth):
         nm = names.pop()
         sh = rng.choice(shapes)[1] if shapes and rng.random() < 0.7 else [rng.randint(1, 6)]
         r = rng.random()
-        arg = None if r < 0.3 else np.array([x + 1 for x in sh], dtype=np.int64) if r < 0.5 else np.array(sh, dtype=np.int64)
+        wrong = [x + 1 for x in sh]
+        if max(sh) >= 100000:
+            wrong = [x + rng.choice([1, 2, -1]) if x >= 100000 else x for x in sh]
+        arg = None if r < 0.3 else np.array(wrong, dtype=np.int64) if r < 0.5 else np.array(sh, dtype=np.int64)
         nodes[nm] = {"k": "Output", "args": {"output_type": arg}}
         outs.append(nm)
     allnames = list(nodes)
@@ -76,7 +81,7 @@ def port_graph(rng, depth):
 def gen(rng, tier):
     cases = []
     N = 220 if tier == "quick" else 2500
-    ops = ["dict", "file", "infer", "infer", "subinfer"]
+    ops = ["dict", "file", "infer", "infer", "subinfer", "faildict", "failwrite"]
     for _ in range(N):
         r = rng.random()
         if r < 0.6:
@@ -146,6 +151,10 @@ def scan(g, path="root"):
     return None
 
 
+def rng_pick(xs, i):
+    return xs[i % len(xs)]
+
+
 def subgraphs(g):
     return [n for n in g.nodes.values() if type(n).__name__ == "NIRGraph"]
 
@@ -194,6 +203,23 @@ def run(c):
                         except BaseException:  # noqa: BLE001
                             raised_last = True
                             raised_any = True
+                    elif op in ("faildict", "failwrite"):
+                        # a serialisation that FAILS (metadata that cannot be copied / stored), on the graph itself or on a
+                        # nested graph; afterwards the graph is used on
+                        import threading
+                        tgt = rng_pick(subgraphs(g) + [g], len(done))
+                        tgt.metadata["__lock"] = threading.Lock()
+                        try:
+                            if op == "faildict":
+                                g.to_dict()
+                            else:
+                                nir.write(io.BytesIO(), g)
+                        except Timeout:
+                            raise
+                        except BaseException:  # noqa: BLE001
+                            pass
+                        finally:
+                            tgt.metadata.pop("__lock", None)
                     elif op == "subinfer":
                         for sg in subgraphs(g):
                             try:
